@@ -9,6 +9,7 @@ import Frugal.Props.Inst.F_valid_depth
 import Frugal.Props.Inst.F_skeleton_decoder
 import Frugal.Props.Inst.F_skeleton_encoder
 import Frugal.Props.Inst.F_skeleton_descTable
+import Frugal.Props.Inst.F_skeleton_residualReflect
 namespace Frugal.C01
 open Frugal
 
@@ -234,5 +235,8 @@ theorem encoder_model_written_from_this_code : Generated.facts.encoderSkeleton =
     correspondence runs were validated against (regenerated fingerprint) -/
 theorem descriptor_tables_built_as_modelled : Generated.facts.descTableSkeleton = Skeleton.descTable :=
   Instances.skeleton_descTable
+
+/-- the rest of `internal/reflect` — every function and package-level declaration that neither a fingerprint, a table translation nor a protocol fact covers (the entry points' argument handling, the runtime-layout helpers of `hack.go`, `span`, `bitset`, the exception constructors, the pools, `utils.go`) — is, as full text, that of the tree the model was written from -/
+theorem rest_of_codec_package_as_modelled : Generated.facts.residualReflectSkeleton = Skeleton.residualReflect := Instances.skeleton_residualReflect
 
 end Frugal.C01
